@@ -771,11 +771,13 @@ func TestCheck(t *testing.T) {
 			"update status∈{active,inactive}, update schedule, update both, delete; plus restart (fresh scheduler+coordinator, NotifyCoordinatorOfExisting with store page size 1 | 100). " +
 			"quick: 2 slots × schedules {every 1m, every 2m}; thorough: 3 slots × {every 1m, every 2m, cron */5, cron */3}. Every transition = replay of the state's shortest history on a fresh real " +
 			"CoordinatingTaskService+Coordinator plus one op; after each the scheduler content must equal {existing active task → its latest schedule} and the task table must equal the model's. " +
+			"Offset family (a second pair of searches, same slots; schedules quick {every 1m, every 2m}, thorough {every 1m, every 2m, cron */5}): the task offset ∈ {none, 20s, 40s} is part of the task table and of the scheduler fingerprint (time of the first two runs = schedule firing time + Schedulable.Offset()); additional ops per slot: create with offset 20s (every status × schedule), update offset only ∈ {20s,40s}, update offset + schedule, update offset + status; the statement's 'latest schedule' includes the latest offset. " +
 			"non-trivial = transitions whose op is applicable in the model (distinct by construction: states are deduplicated); a violation is reported on the transition that introduces a discrepancy",
 		Assumptions: []string{
 			"the in-harness map TaskService and recording Scheduler honour the interface contracts (IDs derived from the script; fresh copies returned; Schedule upserts, Release removes)",
 			"timestamps (LatestCompleted/LatestScheduled set from the wall clock at restart) do not influence which tasks are scheduled nor their cron schedule and are left out of the state key",
 			"schedule identity is observed through Schedule().Next at a probe instant; the cron library is trusted",
+			"the offset is part of a task's schedule: the scheduler runs an item at Schedule().Next(...) + Offset() (scheduler.Schedulable), so an active task whose offset was updated must be (re)scheduled with the new offset; the in-harness store applies TaskUpdate.Options.Offset as kv.Service.updateTask does",
 		},
 		QuickBudgetS: 40, ThoroughBudgetS: 600,
 		Run: func(c *vlib.Ctx) {
